@@ -11,6 +11,7 @@ import lib
 
 def main():
     t0 = time.time()
+    print(f'[setup] caching arena allocator: {"installed" if lib.install_fastarena() else "unavailable (checks run slower)"}', flush=True)
     # 1. every TLA+ module parses
     mods = sorted(glob.glob(os.path.join(lib.SPEC, '*.tla')))
     for m in mods:
